@@ -384,10 +384,16 @@ impl PreferenceManager {
         // try to find ./Rules/lang/style.yaml and ./Rules/lang/style.yaml
         // we go through a series of fallbacks -- we try to maintain the language if possible
 
-        let language = self.pref_to_string("Language");
-        let language = if language.as_str() == "Auto" {"en"} else {language.as_str()};       // avoid 'temp value dropped while borrowed' error
+        let mut language = self.pref_to_string("Language");
+        if language.as_str() == "Auto" {
+            // the language in use is the one "LanguageAuto" names; "en" only if it was never set
+            language = self.pref_to_string("LanguageAuto");
+            if language.is_empty() || language == NO_PREFERENCE || language == "Auto" {
+                language = "en".to_string();
+            }
+        }
         let language_dir = rules_dir.to_path_buf().join("Languages");
-        self.set_speech_files(&language_dir, language, None)?;  // also sets style file
+        self.set_speech_files(&language_dir, &language, None)?;  // also sets style file
 
         let braille_code = self.pref_to_string("BrailleCode");
         let braille_dir = rules_dir.to_path_buf().join("Braille");
